@@ -194,6 +194,9 @@ func runC08(c *Ctx) {
 	r.Check("C08.disposal", "uploadReportContents/marker write exists", m.Pos(fn.Pos()), nWrite == 1, fmt.Sprintf("%d marker writes", nWrite))
 	// the posted bytes are the buf parameter (shared with C01.body)
 	r.Check("C08.same-bytes", "uploadReportContents/posted body is buf", m.Pos(post.Pos()), describeArg(post, 2) == "bytes.NewReader(param:buf)", "got "+describeArg(post, 2))
+	// … and buf is the report as it was read: every caller passes the bytes of a ReadFile that succeeded
+	// (a nil body after a failed read would be posted, answered 200 by a lenient server and recorded)
+	c08BodyIsReadFile(c, m, "C08.same-bytes")
 	// true result only after the marker path
 	for _, b := range fn.Blocks {
 		ret, ok := b.Instrs[len(b.Instrs)-1].(*ssa.Return)
@@ -310,4 +313,29 @@ func c08Publish(c *Ctx, m *Module) {
 			}
 		}
 	}
+}
+
+// c08BodyIsReadFile: each call of uploadReportContents hands over the first result of an
+// os.ReadFile call under the fact that this call returned no error.
+func c08BodyIsReadFile(c *Ctx, m *Module, rule string) {
+	r := c.R
+	fn := m.Func("internal/upload", "uploader.uploadReportContents")
+	n := 0
+	for _, cs := range m.callersOf(fn) {
+		n++
+		a := argsOf(cs)
+		body := strip(a[len(a)-1])
+		ok := false
+		detail := "got " + shortDesc(describe(body))
+		if ex, isEx := body.(*ssa.Extract); isEx && ex.Index == 0 {
+			if rd, isCall := ex.Tuple.(*ssa.Call); isCall && calleeName(&rd.Call) == "os.ReadFile" {
+				ok = hasFact(factsAt(cs), errNilOf(rd))
+				if !ok {
+					detail = "the read's error is not known to be nil here"
+				}
+			}
+		}
+		r.Check(rule, fname(cs.Parent())+"/body handed to uploadReportContents is a successfully read file", m.Pos(cs.Pos()), ok, detail)
+	}
+	r.Check(rule, "callers of uploadReportContents enumerated", m.Pos(fn.Pos()), n >= 1, fmt.Sprintf("%d", n))
 }
